@@ -30,7 +30,7 @@ import (
 var booleanStd = set("allowfullscreen async autofocus autoplay checked controls default defer disabled formnovalidate inert ismap itemscope loop multiple muted nomodule novalidate open playsinline readonly required reversed selected shadowrootclonable shadowrootdelegatesfocus shadowrootserializable " +
 	"compact declare nohref noresize noshade nowrap truespeed typemustmatch scoped seamless sortable allowpaymentrequest") // not `hidden`: it is an enumerated attribute (hidden, until-found) in the Living Standard
 var urlStd = set("action cite data formaction href itemid manifest poster src background longdesc profile usemap classid codebase icon xmlns ping archive itemtype")
-var rawStd = set("script style textarea title iframe xmp noembed noframes noscript plaintext svg math") // svg/math: foreign content handed to its own minifier as one unit
+var rawStd = set("script style textarea title iframe xmp noembed noframes plaintext svg math") // svg/math: foreign content handed to its own minifier as one unit
 var boundaryStd = set("address article aside blockquote body center dd details dialog dir div dl dt fieldset figcaption figure footer form h1 h2 h3 h4 h5 h6 header hgroup hr html legend li listing main menu nav ol optgroup option p plaintext pre search section summary table ul xmp " +
 	"caption col colgroup tbody td tfoot th thead tr br " + // table parts, line break
 	"head title style script noembed noframes template datalist param source track link meta base area noscript") // not rendered
@@ -317,6 +317,14 @@ func Run(c *core.Check) {
 		} else {
 			k.entry("probe.boolean", n, "api", true, "")
 		}
+		// raw text: the first text inside the element is copied as it is (no reference decoded, no white space collapsed);
+		// noscript is not in the list: its content is tokenized as markup by the minifier's lexer (and by a parser without scripting)
+		if n != "html" && n != "head" && n != "body" && n != "frameset" && n != "frame" && n != "template" && n != "pre" && n != "listing" {
+			doc := "<div><" + n + ">a  &amp;lpar;  b<i> c</i></" + n + "></div>"
+			if out, err := mu.String("text/html", doc); err == nil {
+				k.entry("probe.raw", n, "api", !strings.Contains(out, "a  &amp;lpar;  b") || rawStd[n], fmt.Sprintf("%q → %q: the text is copied unprocessed as for a raw-text element, which <%s> is not", doc, out, n))
+			}
+		}
 		// block boundary: white space next to the element disappears
 		void := map[string]bool{"br": true, "hr": true, "img": true, "input": true, "col": true, "area": true, "base": true, "link": true, "meta": true, "param": true, "source": true, "track": true, "wbr": true, "embed": true}
 		doc := "<div>a <" + n + ">b</" + n + "> c</div>"
@@ -353,6 +361,11 @@ func Run(c *core.Check) {
 func Replay(f core.Failure) (string, string) {
 	c := core.New("C17", "quick", "exploration")
 	Run(c)
+	for _, g := range c.Failures() {
+		if g.Family == f.Family && g.Input == f.Input && g.Config == f.Config {
+			return g.Kind, g.What
+		}
+	}
 	return "", "C17 is finite: re-run ./run.sh C17 quick"
 }
 
